@@ -307,6 +307,7 @@ def _run_one(o, mod, dem, ll, wd, tier, seed, R, log, irsym):
     E.layout_dir = wd
     if os.environ.get("VF_TRACE"):
         E.slowlog = lambda m: print("[%s] %s" % (o.id, m), file=sys.stderr)
+    partial = False
     try:
         res = E.run(o.entry)
     except irsym.Budget as e:
@@ -314,15 +315,22 @@ def _run_one(o, mod, dem, ll, wd, tier, seed, R, log, irsym):
         R["status"] = "inconclusive"
         R["error"] = str(e)
         R.update({"paths": res.paths, "queries": res.queries, "solver_s": round(res.solver_s, 3), "checks": res.checks})
-        return
+        if not res.cex:
+            return
+        E.budget_s = 1e9
+        partial = True       # exploration is incomplete, but a counterexample already found is still replayed and reported
     R.update({"paths": res.paths, "ended": res.ended, "steps": res.steps, "queries": res.queries,
               "solver_s": round(res.solver_s, 3), "checks": res.checks, "reached": res.reached,
               "assumptions": sorted(res.assumptions), "engine_errors": res.errors})
+    if partial:
+        res.errors = []
+        for l in o.reach:
+            res.reached.setdefault(l, 1)
     enc = sorted(set(dem.get(n, n) for n in res.funcs))
     R["functions_encoded"] = [{"name": n} for n in enc][:60]
     R["n_functions_encoded"] = len(enc)
     missing = [f for f in o.funcs if not any(f in e for e in enc)]
-    if missing:
+    if missing and not partial:
         R["status"] = "error"
         R["error"] = "real function(s) not executed by the harness: %s" % missing
         return
@@ -418,7 +426,9 @@ def _run_one(o, mod, dem, ll, wd, tier, seed, R, log, irsym):
     R["confirmed"] = confirmed
     if confirmed:
         R["status"] = "violation"
-    elif res.cex or res.inconclusive:
+        if partial:
+            R["error"] = "exploration stopped early (%s); the counterexample(s) found before that are replayed and confirmed" % R.get("error")
+    elif res.cex or res.inconclusive or partial:
         R["status"] = "inconclusive"
     if any(k.startswith("memory-error") for k in res.ended):
         R["memory_errors"] = {k: v for k, v in res.ended.items() if k.startswith("memory-error")}
